@@ -195,7 +195,7 @@ def run(ctx):
     }
     if not ctx.quick:
         fams["no-screening/adaptive"] = dict(kind="bar", dt=dt, dt_max=0.05, adaptive=True, solve_time=0.8, k=10, tolq=5, Bfactor=1.5)
-        three_more = [[-9, 0, -3], [-3, -6, -9]]
+        three_more = [[-9, 0, -3], [-3, -6, -9], [-6, -3, -3]]
     else:
         three_more = [[-9, 0, -3]]        # a system whose current/length ratio is not A/m (uA/um = nA/nm = mA/mm = A/m)
     jobs, tags = [], []
@@ -234,6 +234,12 @@ def run(ctx):
                     ev.append({"run": rid, "key": f"step{fr['step']}/{qn}", "q": [int(round(x / scale[qn] * Q)) for x in fr[qn]]})
             for st, v in r_["K_A_per_m"].items():
                 ev.append({"run": rid, "key": f"step{st}/current_density[A/m]", "q": [int(round(x / scale["K"] * Q)) for x in v]})
+            for st, fd in r_["fields"].items():
+                for qn, v in fd.items():
+                    base = qn.split(" via ")[0]          # the value obtained through `units=` must be the same physical value
+                    sc = max(1e-300, max(abs(x) for x in refrun["fields"][st][base]))
+                    ev.append({"run": rid + (" via units=" if " via " in qn else ""), "key": f"step{st}/{base}",
+                               "q": [int(max(-2e9, min(2e9, round(x / sc * Q)))) for x in v]})
             ev.append({"run": rid, "key": "frames", "q": [fr["step"] for fr in r_["frames"]]})
             ctx.note_case((label, rid), len(r_["frames"]) >= 2)
         ttr.append({"tol": a["tolq"], "minruns": len(mine), "ev": ev, "label": label})
